@@ -5,6 +5,6 @@ check("C08", "exploration",
       "(NoDeadlock, Isolation, SessionContinues; the as-found locking is shown to deadlock), exports them, and every class / pair is sent as seeded concrete "
       "bytes to the real receptor binary over Unix and TCP control sessions; oracle: process alive, reply class and prefix per spec, session goes on, "
       "and status + work list on a fresh session answered after every input (10.5 s deadline, re-confirmed).",
-      "Bytes within a class are sampled (2 instances quick, 6 thorough); session pairs are replayed within a time budget in quick. Lenient acceptance of "
+      "Mixed sessions (a line that decodes into a JSON object of any shape, then a well-formed plain or JSON command on the same session, whose answer must equal the fresh-session answer in class and content; 2552 carrier x follower pairs enumerated by TLC, 200 replayed in quick, all in thorough) check per-line independence. Bytes within a class are sampled (2 instances quick, 6 thorough); session pairs are replayed within a time budget in quick. Lenient acceptance of "
       "ignored optional fields / extra arguments is modelled as the code behaves and listed, not judged. Trusted: the harness's line builder per class.",
       "TLA+ line-class table + session/lock model, TLC enumeration, vector replay into the real daemon (B1)", "E3 daemon (harness/ctl, cmd/vctl)", "DESIGN.md section 6 C08")
